@@ -539,6 +539,31 @@ func MustUse(c *core.Ctx, rule string, pkgs []*packages.Package, typeclass, pers
 						}
 					}
 				}
+				// a pointer-receiver method whose every return hands back the receiver itself is a fluent mutator
+				// (builder.Add(x) returns the builder): the call statement is made for its effect
+				if callee := calleeOf(info, call); callee != nil && !inPlace {
+					if fd := c.FuncDecl(callee.Origin()); fd != nil && fd.Body != nil && fd.Recv != nil && len(fd.Recv.List) == 1 && len(fd.Recv.List[0].Names) == 1 {
+						if _, isPtr := ast.Unparen(fd.Recv.List[0].Type).(*ast.StarExpr); isPtr {
+							rname := fd.Recv.List[0].Names[0].Name
+							rets, self := 0, 0
+							ast.Inspect(fd.Body, func(x ast.Node) bool {
+								if _, isLit := x.(*ast.FuncLit); isLit {
+									return false
+								}
+								if r, ok := x.(*ast.ReturnStmt); ok && len(r.Results) == 1 {
+									rets++
+									if id, ok := ast.Unparen(r.Results[0]).(*ast.Ident); ok && id.Name == rname {
+										self++
+									}
+								}
+								return true
+							})
+							if rets > 0 && rets == self {
+								inPlace = true
+							}
+						}
+					}
+				}
 				if inPlace {
 					k++
 					c.Add(rule, fb.Name+"/"+exprString(call.Fun)+"#"+itoa(k), call.Pos(), core.Skipped, "in-place mode (constant true mutable flag / builder mutator): "+exprString(call))
